@@ -10,6 +10,7 @@ import (
 	"path"
 	"sort"
 	"strings"
+	"syscall"
 	"testing"
 	"testing/fstest"
 	"time"
@@ -34,6 +35,23 @@ type Entry struct {
 type Layer struct {
 	Nil     bool             `json:"nil,omitempty"`
 	Entries map[string]Entry `json:"entries,omitempty"`
+	// Kind: "" = fstest.MapFS (implements Stat / ReadFile / ReadDir / Glob itself, answers a path
+	// below a file with not-exist); "strict" = the same content behind an fs.FS that has ONLY
+	// Open and answers a path below a file the way an operating system does: with a
+	// "not a directory" error, which is not fs.ErrNotExist.
+	Kind string `json:"kind,omitempty"`
+}
+
+// strictFS exposes only Open and reports ENOTDIR for paths below a regular file.
+type strictFS struct{ m fstest.MapFS }
+
+func (s strictFS) Open(name string) (fs.File, error) {
+	for d := path.Dir(name); d != "." && d != "/"; d = path.Dir(d) {
+		if f, ok := s.m[d]; ok && !f.Mode.IsDir() {
+			return nil, &fs.PathError{Op: "open", Path: name, Err: syscall.ENOTDIR}
+		}
+	}
+	return s.m.Open(name)
 }
 
 // Case is a stack (upper first) plus the queries to run (empty = default set).
@@ -92,6 +110,9 @@ func build(l Layer, idx int) fs.FS {
 			}
 			m[p] = &fstest.MapFile{Data: []byte(e.Content), Mode: mode, ModTime: mt}
 		}
+	}
+	if l.Kind == "strict" {
+		return strictFS{m}
 	}
 	return m
 }
@@ -377,6 +398,12 @@ func classify(c Case) (bool, []string) {
 		}
 		cl = append(cl, closure(l))
 	}
+	for _, l := range c.Stack {
+		if l.Kind == "strict" {
+			cls = append(cls, "open-only-layer-with-ENOTDIR")
+			break
+		}
+	}
 	if nilN > 0 {
 		cls = append(cls, "has-nil-layer")
 	}
@@ -466,7 +493,7 @@ func genLayer(t *rapid.T, idx int) Layer {
 	if rapid.IntRange(0, 9).Draw(t, "nil") == 0 {
 		return Layer{Nil: true}
 	}
-	universe := []string{"a", "b", "d", "d/x", "d/y", "d/s", "d/s/t", "e", "e/z"}
+	universe := []string{"a", "b", "d", "d/x", "d/y", "d/s", "d/s/t", "e", "e/z", "d-b", "d-b/x", "d.o", "d.o/x"}
 	m := map[string]Entry{}
 	blocked := map[string]bool{}
 	for _, p := range universe {
@@ -482,7 +509,7 @@ func genLayer(t *rapid.T, idx int) Layer {
 			m[p] = Entry{Dir: true}
 		}
 	}
-	return Layer{Entries: m}
+	return Layer{Entries: m, Kind: rapid.SampledFrom([]string{"", "", "strict"}).Draw(t, "kind")}
 }
 
 func replay(kind string, raw json.RawMessage) error {
@@ -533,6 +560,55 @@ func TestProp(t *testing.T) {
 		rec.Exhaustive(fmt.Sprintf("all stacks of 1..%d layers over the 5-path universe (%d stacks) x all queries", depth, n))
 	}
 
+	// exhaustive: file-over-directory and prefix-named sibling directories, layers of both kinds.
+	// (a) a path below something that is a FILE in an upper layer and a directory in a lower
+	// one, the upper layer answering "not a directory"; (b) directories whose name is a prefix
+	// of a sibling's ("d", "d-b", "d.o": fs.Glob lists matches directory by directory, which is
+	// not the lexical order of the full paths).
+	if run.First() {
+		var opts []Layer
+		for _, kind := range []string{"", "strict"} {
+			for mask := 0; mask < 16; mask++ {
+				m := map[string]Entry{}
+				if mask&1 != 0 {
+					m["d/x"] = Entry{Content: "dx" + kind}
+				}
+				if mask&2 != 0 {
+					m["d-b/x"] = Entry{Content: "dbx" + kind}
+				}
+				if mask&4 != 0 {
+					m["d.o/x"] = Entry{Content: "dox" + kind}
+				}
+				if mask&8 != 0 {
+					if mask&1 != 0 {
+						continue
+					}
+					m["d"] = Entry{Content: "d-is-a-file" + kind}
+				}
+				opts = append(opts, Layer{Entries: m, Kind: kind})
+			}
+		}
+		opts = append(opts, Layer{Nil: true})
+		okP := true
+		np := 0
+		for _, up := range opts {
+			for _, lo := range opts {
+				if !okP {
+					break
+				}
+				np++
+				c := Case{Stack: []Layer{up, lo}, Paths: []string{".", "d", "d/x", "d-b", "d-b/x", "d.o/x", "d/x/deeper", "d/nope"}, Patterns: []string{"*", "*/x", "d*/x", "d*/*", "*/*", "d[-.]*/x"}}
+				nt, cls := classify(c)
+				if !run.Each(rec, "prefix-enum", c, nt || true, cls, check) {
+					okP = false
+				}
+			}
+		}
+		if okP {
+			rec.Exhaustive(fmt.Sprintf("all two-layer stacks over {d/x, d-b/x, d.o/x, d as a file} x layer kinds {MapFS, Open-only with ENOTDIR} (%d stacks)", np))
+		}
+	}
+
 	// nested construction: deterministic small cases + random
 	if run.First() {
 		ch := layerChoices(0)
@@ -562,8 +638,8 @@ func TestProp(t *testing.T) {
 		for i := 0; i < n; i++ {
 			c.Stack = append(c.Stack, genLayer(t, i))
 		}
-		c.Paths = []string{".", "a", "b", "d", "d/x", "d/y", "d/s", "d/s/t", "e", "e/z", "zz", "d/zz"}
-		c.Patterns = []string{"*", "*/*", "*/*/*", "d/*", "d/s/?", "[a-d]", "e*", "*/[xz]"}
+		c.Paths = []string{".", "a", "b", "d", "d/x", "d/y", "d/s", "d/s/t", "e", "e/z", "zz", "d/zz", "d-b", "d-b/x", "d.o/x", "a/x", "d/x/deeper"}
+		c.Patterns = []string{"*", "*/*", "*/*/*", "d/*", "d/s/?", "[a-d]", "e*", "*/[xz]", "*/x", "d*/x", "d*/*", "d[-.]*/x"}
 		return c
 	}, classify, check)
 }
@@ -579,8 +655,8 @@ func genNested(t *rapid.T) Case {
 	for i := 0; i < k; i++ {
 		c.Alt = append(c.Alt, genLayer(t, c.Nest+i))
 	}
-	c.Paths = []string{".", "a", "b", "d", "d/x", "d/y", "d/s", "d/s/t", "e", "e/z", "zz", "d/zz"}
-	c.Patterns = []string{"*", "*/*", "*/*/*", "d/*", "[a-d]", "e*"}
+	c.Paths = []string{".", "a", "b", "d", "d/x", "d/y", "d/s", "d/s/t", "e", "e/z", "zz", "d/zz", "d-b/x", "d.o/x", "a/x"}
+	c.Patterns = []string{"*", "*/*", "*/*/*", "d/*", "[a-d]", "e*", "*/x", "d*/*"}
 	return c
 }
 
